@@ -28,8 +28,8 @@ from simkit.rng import seed_globals  # noqa: E402
 from simkit.world import BudgetExceeded, InvalidScenario, Monitor, Violation, repo_exception_sig, result  # noqa: E402
 
 PROPERTY = "C15"
-RUNS = {"quick": 400, "thorough": 60_000}
-WALL = {"quick": 58, "thorough": 1500}
+RUNS = {"quick": 300, "thorough": 60_000}
+WALL = {"quick": 90, "thorough": 1500}
 BATCH = {"quick": 8, "thorough": 50}
 SELFTEST_RUNS = 6
 RULE = (
@@ -68,6 +68,8 @@ ASSUMPTIONS = [
     "un-synced WAL entries surviving crash() are not judged (the statement does not forbid extra durability)",
     "processes suspended at the crash die with it; work after a recovery is done by new processes in a new Simulation that starts at "
     "the crash instant on the same (recovered) LSMTree/WAL objects; what the first recovery made readable counts as durable",
+    "auxiliary check beyond the letter of the statement (asked for by the integrator after commit b3cd99f): when a follow-up workload on "
+    "the recovered tree runs to completion and its flushes leave should_compact() true, at least one compaction must have run",
     "put_sync goes through WriteAheadLog.append_sync, which never syncs: such a write is durable only once a later fsync covers it",
 ]
 EXPECTED_PROBES = [
@@ -80,6 +82,7 @@ EXPECTED_PROBES = [
     "probe.crash_after_wal_sync_before_memtable_put", "probe.all_crash_points_covered", "probe.crash_with_three_levels_occupied",
     "probe.crash_after_tombstone_reached_sstable", "probe.compaction_requested_while_one_in_progress",
     "probe.wal_kept_entries_of_newer_memtable_across_flush", "probe.sync_api_write_in_workload",
+    "probe.follow_up_workload_wanted_compaction", "probe.compaction_ran_after_crash_inside_compaction_window",
     "workloads_policy_every", "workloads_policy_batch", "workloads_policy_periodic",
 ]
 SHRINK_SKIP = ("keys", "kind", "strategy", "klass", "policy")
@@ -161,8 +164,10 @@ class DurabilityWatch:
         self.max_levels_occupied = 0
         self.tomb_in_sst = False
         self.compaction_requests_while_busy = 0
-        self._flushes = 0
+        self._flushes = world.lsm._total_memtable_flushes
         self._compacting_prev = 0
+        self.compaction_wanted = 0
+        self._compactions0 = world.lsm._total_compactions
 
     def represented(self, o) -> bool:
         key = o["key"]
@@ -207,6 +212,8 @@ class DurabilityWatch:
         fl = lsm._total_memtable_flushes
         if fl != self._flushes:
             self._flushes = fl
+            if lsm._compaction_strategy.should_compact(lsm._levels):
+                self.compaction_wanted += 1
             if getattr(lsm, "_compaction_in_progress", False) and self._compacting_prev >= 1 and \
                     ph["compact"] <= self._compacting_prev and lsm._compaction_strategy.should_compact(lsm._levels):
                 self.compaction_requests_while_busy += 1
@@ -516,19 +523,18 @@ def crash_recover_judge(W: World, label: str, C: dict, states: set, sc: dict, ph
         d = cands[-1]
         want = S.wval(d)
         ov = "after-overlapping-compactions" if W.watch.overlap_compactions else "compactions-never-overlapped"
-        api = "/workload-mixes-sync-api" if W.sync_api_ops else ""
         if d["seq"] == 0:
-            cause = "state-of-first-recovery-lost-by-second-crash" + api
+            cause = "state-of-first-recovery-lost-by-second-crash"
         elif d["seq"] in W.watch.trunc_unflushed and not W.watch.represented(d):
-            cause = "wal-truncated-before-entry-reached-sstable" + api
+            cause = "wal-truncated-before-entry-reached-sstable"
         elif d["seq"] in pre_wal and d["seq"] not in post_wal:
             cause = "wal-crash-dropped-synced-entry"
         elif d["seq"] in post_wal:
             cause = "synced-wal-entry-not-restored"
         elif d["seq"] not in pre_wal and not W.watch.represented(d):
-            cause = "wal-entry-vanished-without-reaching-sstable" + api
+            cause = "wal-entry-vanished-without-reaching-sstable"
         else:
-            cause = f"durable-entry-reached-sstable-but-is-shadowed-or-dropped/{ov}" + api
+            cause = f"durable-entry-reached-sstable-but-is-shadowed-or-dropped/{ov}"
         if phase == "second":
             cause += "/after-first-recovery"
         symptom = ("durable write lost (key absent)" if got is None else
@@ -574,6 +580,22 @@ def second_crash(sc, k, j, L, base_digest, C, states):
     st = W2.run()
     if st == "done":  # follow-up phase shorter than j: crash after its last delivery
         st = "stopped"
+    if st == "stopped" and all(w.done for w in W2.writers):
+        # auxiliary (see ASSUMPTIONS): the recovered tree must still be a working engine.  If flushes of the completed follow-up
+        # workload asked for compaction, at least one compaction must have run; a guard left set by the crash disables it forever
+        ran = W2.lsm._total_compactions - W2.watch._compactions0
+        first_in_comp = W.tracker.phases()["compact"] > 0
+        if W2.watch.compaction_wanted:
+            C["probe.follow_up_workload_wanted_compaction"] += 1
+            if first_in_comp:
+                C["probe.compaction_ran_after_crash_inside_compaction_window"] += int(ran > 0)
+            if ran == 0:
+                return ("C15/recovered-tree-compacts-again/LSMTree/" +
+                        ("crash-was-inside-compaction-window" if first_in_comp else "crash-outside-compaction-window"),
+                        f"first crash at index {k} of {L} ({'inside' if first_in_comp else 'outside'} a compaction window), recovery, "
+                        f"follow-up workload ran to completion: {W2.watch.compaction_wanted} flush(es) left the tree in a state where "
+                        f"should_compact() is true, yet no compaction ran (compactions still {W2.lsm._total_compactions}, "
+                        f"_compaction_in_progress={getattr(W2.lsm, '_compaction_in_progress', None)})")
     if st != "stopped":
         return st[1] + "/after-first-recovery", f"first crash at {k}, follow-up phase: {st[2]}"
     C["workloads_sync_api_ops"] += W2.sync_api_ops
@@ -592,6 +614,7 @@ COUNTERS = [
     "probe.crash_with_three_levels_occupied", "probe.crash_after_tombstone_reached_sstable",
     "probe.compaction_requested_while_one_in_progress", "probe.wal_kept_entries_of_newer_memtable_across_flush",
     "probe.sync_api_write_in_workload", "workloads_sync_api_ops",
+    "probe.follow_up_workload_wanted_compaction", "probe.compaction_ran_after_crash_inside_compaction_window",
 ]
 
 
